@@ -95,7 +95,6 @@ UNTYPED_OK = {
     "myst_parser.mdit_to_docutils.base:DocutilsRenderer.create_highlighted_code_block": "pygments LexerError text, mirrors docutils' own code directive (not a MyST catalogue warning)",
     "myst_parser.parsers.docutils_:Parser.parse": "'Raw content disabled.' mirrors docutils' raw-role message",
     "myst_parser.parsers.sphinx_:MystParser.parse": "'Raw content disabled.' - the same raw filter as the docutils front end (mirrors docutils' raw-role message)",
-    "myst_parser.sphinx_ext.mathjax:log_override_warning": "MathJax override notice: hand-checked against suppress_warnings with the fixed tag myst.mathjax",
     "myst_parser._docs:DirectiveDoc.run": "documentation build helper, not reachable from setup()",
 }
 NON_MYST_PAIRS = {("ref", "footnote")}
@@ -906,7 +905,7 @@ def r4_suppression_confined(corpus: Corpus, rep: Report, tier: str):
         else:
             rep.violation("C14.R4", k, fi.module.site(call), "suppression is consulted outside create_warning: behaviour other than the warning itself can depend on suppress_warnings")
     # (b) who reads suppress_warnings
-    allowed_readers = {cw.fq: "the suppression test", "myst_parser.sphinx_ext.mathjax:log_override_warning": "MathJax notice"}
+    allowed_readers = {cw.fq: "the suppression test"}
     for fi in corpus.all_functions():
         nodes = fi.local_nodes() if not fi.is_lambda else list(ast.walk(fi.node.body))
         for n in nodes:
@@ -2601,7 +2600,305 @@ def r7_documented_catalogue(corpus: Corpus, rep: Report, tier: str):
         rep.ok(R, k, site, f"`myst.<member.value>` for each of the {len(em.members)} members")
 
 
-RULES = [r1_typed_emission, r2_untyped_closed_list, r3_no_member_loses_last_site, r4_suppression_confined, r5_return_value_unused, r6_tag_format, r7_documented_catalogue]
+# -- R8: message nodes are not content -------------------------------------------------------------------------
+#
+# Inline and block renderers attach the system_message of a warning next to the offending element
+# (append_to=self.current_node), so any container of rendered content - a title, a term, a link, the body of a
+# directive, the document root - may hold such nodes when the warning is NOT suppressed.  Whoever derives text,
+# names, counts or structural decisions from such a container must leave them out, or the output differs between
+# the suppressed and the unsuppressed run by more than the message.
+
+# library functions that name something by the text of the nodes they are given: {dotted suffix: index of that argument}
+TEXT_NAMERS = {"make_glossary_term": 1}
+
+
+def _sm_class(e: ast.AST) -> bool:
+    return (dotted(e) or "").split(".")[-1] == "system_message"
+
+
+def _mentions_sm(e: ast.AST) -> bool:
+    return any(_sm_class(x) for x in ast.walk(e) if isinstance(x, (ast.Attribute, ast.Name)))
+
+
+def _strips_messages(fi: FunctionInfo, recv_text: str, before: ast.AST) -> bool:
+    """Does ``fi`` remove every system_message below ``recv_text`` on all paths to ``before``?
+    (``for m in [list(]findall(X)(nodes.system_message)[)]: m.parent.remove(m)`` - directly or through a list bound before)"""
+    if fi.is_lambda:
+        return False
+    cfg = get_cfg(fi)
+    try:
+        target = cfg.stmt_of(before)
+    except Exception:
+        return False
+
+    def yields_messages(it: ast.expr, depth: int = 0) -> bool:
+        if depth > 3:
+            return False
+        if isinstance(it, ast.Call) and isinstance(it.func, ast.Name) and it.func.id in ("list", "tuple", "reversed") and it.args:
+            return yields_messages(it.args[0], depth + 1)
+        if isinstance(it, ast.Name):
+            defs = [n for n in fi.local_nodes() if isinstance(n, ast.Assign) and len(n.targets) == 1 and _is_name(n.targets[0], it.id)]
+            return len(defs) == 1 and yields_messages(defs[0].value, depth + 1)
+        if isinstance(it, ast.Call) and it.args and _sm_class(it.args[0]):
+            f = it.func  # findall(X)(cls) / X.findall(cls) / X.traverse(cls)
+            if isinstance(f, ast.Call) and f.args and unparse(f.args[0]) == recv_text:
+                return True
+            if isinstance(f, ast.Attribute) and f.attr in ("findall", "traverse") and unparse(f.value) == recv_text:
+                return True
+        return False
+
+    loops = []
+    for n in fi.local_nodes():
+        if isinstance(n, ast.For) and isinstance(n.target, ast.Name) and yields_messages(n.iter):
+            v = n.target.id
+            if any(isinstance(c, ast.Call) and isinstance(c.func, ast.Attribute) and c.func.attr == "remove" and unparse(c.func.value) == f"{v}.parent" and c.args and _is_name(c.args[0], v) for c in ast.walk(n)):
+                loops.append(n)
+    return any(not cfg.paths_avoiding("ENTRY", target, lambda x, lp=lp: x is lp) for lp in loops)
+
+
+def _only_rawsource(fi: FunctionInfo, call: ast.Call) -> bool:
+    """The text only becomes the ``rawsource`` (first positional argument) of a newly constructed docutils node."""
+    def is_ctor_first_arg(x: ast.AST) -> bool:
+        p = parent(x)
+        return isinstance(p, ast.Call) and bool(p.args) and p.args[0] is x and (dotted(p.func) or "").startswith("nodes.")
+
+    if is_ctor_first_arg(call):
+        return True
+    p = parent(call)
+    if isinstance(p, ast.Assign) and len(p.targets) == 1 and isinstance(p.targets[0], ast.Name) and not fi.is_lambda:
+        var = p.targets[0].id
+        loads = [n for n in fi.local_nodes() if isinstance(n, ast.Name) and n.id == var and isinstance(n.ctx, ast.Load)]
+        try:  # only the uses this assignment reaches (the same name may be bound to other text on other branches)
+            cfg = get_cfg(fi)
+            others = {cfg.stmt_of(s) for s in fi.local_nodes() if isinstance(s, ast.Name) and s.id == var and isinstance(s.ctx, ast.Store)} - {p}
+            reached = [n for n in loads if cfg.paths_avoiding(p, cfg.stmt_of(n), lambda x: x in others)]
+        except Exception:
+            return False
+        return bool(reached) and all(is_ctor_first_arg(n) for n in reached)
+    return False
+
+
+_FOOTNOTE_REGISTRIES = ("footnotes", "autofootnotes", "symbol_footnotes")
+
+
+def _is_footnote_label(recv: ast.expr, fi: FunctionInfo) -> bool:
+    """``<footnote>.children[0]`` / ``<footnote>[0]`` with <footnote> taken from the document's footnote registries:
+    the label node, which holds the label text only."""
+    if isinstance(recv, ast.Name) and not fi.is_lambda:
+        defs = [n for n in fi.local_nodes() if isinstance(n, ast.Assign) and len(n.targets) == 1 and _is_name(n.targets[0], recv.id)]
+        if len(defs) != 1:
+            return False
+        recv = defs[0].value
+    if not (isinstance(recv, ast.Subscript) and is_const(recv.slice, 0)):
+        return False
+    base = recv.value.value if isinstance(recv.value, ast.Attribute) and recv.value.attr == "children" else recv.value
+    if not isinstance(base, ast.Name) or fi.is_lambda:
+        return False
+    for n in fi.local_nodes():
+        tgt, it = (n.target, n.iter) if isinstance(n, (ast.For, ast.comprehension)) else (None, None)
+        if tgt is not None and _is_name(tgt, base.id) and any(isinstance(x, ast.Attribute) and x.attr in _FOOTNOTE_REGISTRIES for x in ast.walk(it)):
+            return True
+    return False
+
+
+def _is_math_leaf(recv: ast.expr, fi: FunctionInfo) -> bool:
+    """A parameter annotated as a docutils math / math_block node: a text-only leaf."""
+    if not isinstance(recv, ast.Name) or fi.is_lambda:
+        return False
+    a = fi.node.args
+    for x in a.posonlyargs + a.args + a.kwonlyargs:
+        if x.arg == recv.id and x.annotation is not None:
+            return unparse(x.annotation).strip("'\"").split(".")[-1] in ("math", "math_block")
+    return False
+
+
+_WARNING_CALLS = ("log_warning", "create_warning", "warning")
+
+
+def _only_in_warning_text(corpus: Corpus, fi: FunctionInfo, call: ast.Call, depth: int = 0) -> bool:
+    """The text is only used to word a warning: it stays inside the arguments of a warning call, directly, through
+    a local, or as the value returned to callers that use it that way."""
+    if fi.is_lambda or depth > 2:
+        return False
+
+    def inside_warning(x: ast.AST) -> bool:
+        return any(isinstance(a, ast.Call) and isinstance(a.func, (ast.Attribute, ast.Name)) and (dotted(a.func) or "").split(".")[-1] in _WARNING_CALLS for a in ancestors(x))
+
+    def value_ok(x: ast.AST, f: FunctionInfo, d: int) -> bool:
+        if inside_warning(x):
+            return True
+        st = x
+        while not isinstance(st, ast.stmt):
+            st = parent(st)
+            if st is None:
+                return False
+        if isinstance(st, ast.Assign) and len(st.targets) == 1 and isinstance(st.targets[0], ast.Name):
+            var = st.targets[0].id
+            loads = [n for n in f.local_nodes() if isinstance(n, ast.Name) and n.id == var and isinstance(n.ctx, ast.Load)]
+            return bool(loads) and all(value_ok(n, f, d) if not inside_warning(n) and isinstance(parent(n), (ast.FormattedValue, ast.JoinedStr, ast.Return)) else inside_warning(n) for n in loads) and d < 6
+        if isinstance(st, ast.Return) and d < 3:
+            callers = _callers(corpus).get(f.fq, [])
+            return bool(callers) and all(value_ok(c, cf, d + 1) for cf, c in callers if not cf.is_lambda) and not any(cf.is_lambda for cf, _ in callers)
+        return False
+
+    return value_ok(call, fi, depth)
+
+
+def _filtered_children(e: ast.expr, fi: FunctionInfo, depth: int = 0) -> tuple[str | None, bool]:
+    """(container whose children ``e`` enumerates, are system_message nodes filtered out) - (None, _) if ``e`` is not a child list."""
+    if depth > 4:
+        return None, False
+    if isinstance(e, ast.Attribute) and e.attr == "children":
+        return unparse(e.value), False
+    if isinstance(e, ast.Call) and isinstance(e.func, ast.Name) and e.func.id in ("list", "tuple", "reversed") and e.args:
+        return _filtered_children(e.args[0], fi, depth + 1)
+    if isinstance(e, (ast.ListComp, ast.GeneratorExp)) and len(e.generators) == 1:
+        g = e.generators[0]
+        base, filt = _filtered_children(g.iter, fi, depth + 1)
+        if base is None:
+            return None, False
+        if isinstance(e.elt, ast.Name) and isinstance(g.target, ast.Name) and e.elt.id == g.target.id:
+            for c in g.ifs:
+                core, neg = _strip_not(c)
+                if neg and isinstance(core, ast.Call) and dotted(core.func) == "isinstance" and len(core.args) == 2 and _mentions_sm(core.args[1]):
+                    filt = True
+            return base, filt
+        return None, False
+    if isinstance(e, ast.Name):
+        defs = [n for n in fi.local_nodes() if isinstance(n, ast.Assign) and len(n.targets) == 1 and _is_name(n.targets[0], e.id)]
+        if len(defs) == 1:
+            return _filtered_children(defs[0].value, fi, depth + 1)
+    return None, False
+
+
+def _content_containers(fi: FunctionInfo) -> dict[str, str]:
+    """Names in ``fi`` that denote a container which may hold message nodes: the document root (and a cursor that
+    walks down from it), the node a nested parse renders into."""
+    out: dict[str, str] = {}
+    for n in fi.local_nodes():
+        if isinstance(n, ast.Attribute) and n.attr == "document" and isinstance(n.value, ast.Name) and n.value.id == "self":
+            out["self.document"] = "the document root"
+        if isinstance(n, ast.Call) and isinstance(n.func, ast.Attribute) and n.func.attr == "nested_parse" and len(n.args) >= 3 and isinstance(n.args[2], ast.Name):
+            out[n.args[2].id] = "the container a nested parse renders the directive content into"
+    if "document" in fi.params:
+        out["document"] = "the document root"
+    changed = True
+    while changed:  # `node = self.document` ... `node = children[-1]`: a cursor below the root
+        changed = False
+        for n in fi.local_nodes():
+            if isinstance(n, (ast.Assign, ast.AnnAssign)) and n.value is not None:
+                tgt = n.targets[0] if isinstance(n, ast.Assign) and len(n.targets) == 1 else getattr(n, "target", None)
+                if isinstance(tgt, ast.Name) and tgt.id not in out and unparse(n.value) in out:
+                    out[tgt.id] = out[unparse(n.value)] + " (or a section below it)"
+                    changed = True
+    return out
+
+
+@rule("C14.R8")
+def r8_messages_are_not_content(corpus: Corpus, rep: Report, tier: str):
+    rep.rule("C14.R8", "warning nodes are not content: text, names, child counts and structural tests taken from a container of rendered content leave system_message nodes out; no message node is attached to the document root after the body")
+    R = "C14.R8"
+    _CORPUS[0] = corpus
+    n_text = 0
+    # (a) text of rendered content
+    for fi in corpus.all_functions():
+        nodes_ = fi.local_nodes() if not fi.is_lambda else list(ast.walk(fi.node.body))
+        for c in nodes_:
+            if not (isinstance(c, ast.Call) and isinstance(c.func, ast.Attribute) and c.func.attr == "astext" and not c.args):
+                continue
+            n_text += 1
+            recv = unparse(c.func.value)
+            k = f"{fi.fq}|text of {recv}"
+            site = fi.module.site(c)
+            if _strips_messages(fi, recv, c):
+                rep.ok(R, k, site, "system_message nodes are removed from the (copied) node first")
+            elif _only_rawsource(fi, c):
+                rep.ok(R, k, site, "only the rawsource of a newly built node, which no writer renders")
+            elif _is_footnote_label(c.func.value, fi):
+                rep.ok(R, k, site, "the label node of a registered footnote: holds the label text only")
+            elif _is_math_leaf(c.func.value, fi):
+                rep.ok(R, k, site, "a math node: a text-only leaf")
+            elif _only_in_warning_text(corpus, fi, c):
+                rep.ok(R, k, site, "only words a warning message")
+            else:
+                rep.violation(R, k, site, f"`{short(parent(c) if isinstance(parent(c), ast.stmt) else c, 60)}`: the text of `{recv}` includes the text of any warning attached inside it (system_message nodes are not removed first): the value differs between the suppressed and the unsuppressed run")
+    rep.expect_min(R, 5, ".astext() call sites (9 on the reviewed tree)")
+    # (b) library functions that name something by the text of the nodes they get
+    for fi in corpus.all_functions():
+        if fi.is_lambda:
+            continue
+        for c in fi.local_nodes():
+            if not isinstance(c, ast.Call):
+                continue
+            name = (dotted(c.func) or "").split(".")[-1]
+            if name not in TEXT_NAMERS or len(c.args) <= TEXT_NAMERS[name]:
+                continue
+            arg = c.args[TEXT_NAMERS[name]]
+            base = unparse(arg.value) if isinstance(arg, ast.Attribute) and arg.attr == "children" else unparse(arg)
+            k = f"{fi.fq}|{name}({unparse(arg)})"
+            if _strips_messages(fi, base, c):
+                rep.ok(R, k, fi.module.site(c), "system_message nodes are taken out before the nodes are handed over")
+            else:
+                rep.violation(R, k, fi.module.site(c), f"{name} names its object by the text of `{unparse(arg)}`, which includes any warning attached inside: id and name differ between the suppressed and the unsuppressed run")
+    # (c) counting / classifying the children of a container that may hold message nodes
+    for fi in corpus.all_functions():
+        if fi.is_lambda or fi.cls is None and fi.parent_func is None and fi.name.startswith("render_"):
+            continue
+        conts = _content_containers(fi)
+        if not conts:
+            continue
+        seen: set[str] = set()
+        for n in fi.local_nodes():
+            subject = None  # (expression enumerating children, how it is used)
+            if isinstance(n, ast.Call) and dotted(n.func) == "len" and len(n.args) == 1:
+                subject = (n.args[0], "is counted")
+            elif isinstance(n, ast.Call) and dotted(n.func) in ("all", "any") and len(n.args) == 1 and isinstance(n.args[0], (ast.GeneratorExp, ast.ListComp)) and len(n.args[0].generators) == 1 and any(isinstance(x, ast.Call) and dotted(x.func) == "isinstance" for x in ast.walk(n.args[0].elt)):
+                g = n.args[0].generators[0]
+                if any(isinstance(x, ast.Call) and dotted(x.func) == "isinstance" and len(x.args) == 2 and _mentions_sm(x.args[1]) for x in ast.walk(n.args[0])):
+                    continue  # the classification names system_message itself
+                subject = (g.iter, "is classified by node class")
+            elif isinstance(n, ast.Assign) and len(n.targets) == 1 and isinstance(n.targets[0], (ast.Tuple, ast.List)):
+                subject = (n.value, "is unpacked into a fixed number of items")
+            elif isinstance(n, ast.Subscript) and isinstance(n.ctx, ast.Load) and not isinstance(n.slice, ast.Slice) and isinstance(parent(n), ast.Call) and dotted(parent(n).func) == "isinstance":
+                subject = (n.value, "has an item picked by position and classified")
+            if subject is None:
+                continue
+            expr, how = subject
+            base, filt = _filtered_children(expr, fi)
+            if base is None and unparse(expr) in conts and how == "is counted":
+                base, filt = unparse(expr), False  # len(node) == len(node.children)
+            if base is None or base not in conts:
+                continue
+            k = f"{fi.fq}|children of {base}|{how}"
+            if k in seen:
+                continue
+            seen.add(k)
+            if filt:
+                rep.ok(R, k, fi.module.site(n), "system_message children are filtered out first")
+            else:
+                rep.violation(R, k, fi.module.site(n), f"`{short(n, 60)}`: the child list of `{base}` ({conts[base]}) {how} without leaving out system_message nodes: a warning attached there changes the decision, so suppressing it changes more than the message")
+    # (d) no message node on the document root once the body is rendered
+    g = get_callgraph(corpus)
+    try:
+        fin = corpus.func("mdit_to_docutils.base:DocutilsRenderer._render_finalise")
+    except Exception:
+        fin = None
+    after_body = set(g.reachable([fin])) if fin is not None else set()
+    em = _emissions(corpus)
+    for fi, call, kind in em.sites:
+        a = kwarg(call, "append_to")
+        if a is None or unparse(a) != "self.document":
+            continue
+        k = f"{fi.fq}|append_to=self.document"
+        if fi.fq in after_body:
+            rep.violation(R, k, fi.module.site(call), "the message node is appended to the document root after the body: docutils promotes a lone top-level section to the document title only if it is the root's sole child, so the heading stays a section unless the warning is suppressed (append to the open section instead)")
+        else:
+            rep.listed(R, k, fi.module.site(call), "appended to the document root while rendering")
+    if fin is not None:
+        rep.ok(R, f"{fin.fq}|no message node on the document root", fin.site(), f"{len(after_body)} function(s) run after the body")
+
+
+RULES = [r1_typed_emission, r2_untyped_closed_list, r3_no_member_loses_last_site, r4_suppression_confined, r5_return_value_unused, r6_tag_format, r7_documented_catalogue, r8_messages_are_not_content]
 
 
 def mutants(corpus: Corpus):
@@ -2789,6 +3086,55 @@ def mutants(corpus: Corpus):
         out.append(Mutant("c14-docs-list-member-names-raw", "C14.R7", dm.rel, splice(dm.src, c, f"{unparse(c.value)}.name"), expect="documented tag"))
     else:
         out.append(("c14-docs-list-member-names", "the directive no longer renders <member>.value in a comprehension"))
+    # 6e. reverts of the round-10 repairs: warning nodes counted / read as content
+    f = base.func("clean_astext")
+    lp = find_node(f, lambda n: isinstance(n, ast.For) and _mentions_sm(n.iter))
+    if lp is not None:
+        out.append(Mutant("c14-revert-d24bc2f-title-text-keeps-warnings", "C14.R8", base.rel, splice(base.src, lp, "pass"), expect="clean_astext"))
+    else:
+        out.append(("c14-revert-d24bc2f-title-text-keeps-warnings", "clean_astext has no loop over system_message nodes"))
+    f = base.func("DocutilsRenderer.render_dl")
+    lp = find_node(f, lambda n: isinstance(n, ast.For) and any(isinstance(c, ast.Call) and isinstance(c.func, ast.Attribute) and c.func.attr == "remove" for c in ast.walk(n)) and isinstance(n.target, ast.Name) and unparse(n.iter) in {unparse(a.targets[0]) for a in f.local_nodes() if isinstance(a, ast.Assign) and _mentions_sm(a.value)})
+    if lp is not None:
+        out.append(Mutant("c14-revert-6b7d61f-glossary-term-named-with-warning", "C14.R8", base.rel, splice(base.src, lp, "pass"), expect="make_glossary_term"))
+    else:
+        out.append(("c14-revert-6b7d61f-glossary-term-named-with-warning", "render_dl has no loop removing the collected system_message nodes"))
+    f = base.func("DocutilsRenderer._render_finalise")
+    c = find_node(f, lambda n: isinstance(n, ast.Call) and unparse(n.func) == "self.create_warning" and kwarg(n, "append_to") is not None and "MD_DEF_DUPE" in unparse(n))
+    if c is not None:
+        out.append(Mutant("c14-revert-61fb59f-duplicate-def-on-document-root", "C14.R8", base.rel, splice(base.src, kwarg(c, "append_to"), "self.document"), expect="append_to=self.document"))
+    else:
+        out.append(("c14-revert-61fb59f-duplicate-def-on-document-root", "_render_finalise has no create_warning(MD_DEF_DUPE, append_to=...)"))
+    sd = corpus.mod("sphinx_ext.directives")
+    f = sd.func("FigureMarkdown.run")
+    comp = find_node(f, lambda n: isinstance(n, ast.ListComp) and len(n.generators) == 1 and any(isinstance(_strip_not(i)[0], ast.Call) and _strip_not(i)[1] and _mentions_sm(i) for i in n.generators[0].ifs))
+    if comp is not None:
+        out.append(Mutant("c14-revert-5a13d0d-figure-md-counts-warning-nodes", "C14.R8", sd.rel, splice(sd.src, comp, f"list({unparse(comp.generators[0].iter)})"), expect="FigureMarkdown.run"))
+    else:
+        out.append(("c14-revert-5a13d0d-figure-md-counts-warning-nodes", "FigureMarkdown.run has no child list filtered for system_message"))
+    mj = corpus.mod("sphinx_ext.mathjax")
+    f = mj.func("log_override_warning")
+    c = find_node(f, lambda n: isinstance(n, ast.Call) and isinstance(n.func, ast.Attribute) and n.func.attr == "warning" and kwarg(n, "type") is not None)
+    if c is not None:
+        c2 = copy.deepcopy(c)
+        c2.keywords = [k for k in c2.keywords if k.arg not in ("type", "subtype")]
+        out.append(Mutant("c14-revert-8b54584-mathjax-notice-untyped", "C14.R2", mj.rel, splice(mj.src, c, ast.unparse(c2)), expect="log_override_warning"))
+        st0 = f.node.body[1] if isinstance(f.node.body[0], ast.Expr) and isinstance(f.node.body[0].value, ast.Constant) else f.node.body[0]
+        out.append(Mutant("c14-revert-8b54584-mathjax-notice-own-suppression-test", "C14.R4", mj.rel, splice(mj.src, st0, "if logging.is_suppressed_warning('myst', 'mathjax', app.config.suppress_warnings):\n        return\n    " + ast.get_source_segment(mj.src, st0)), expect="log_override_warning"))
+    else:
+        out.append(("c14-revert-8b54584-mathjax-notice-untyped", "log_override_warning has no typed logger call"))
+    # 6f. the class of the new known findings, at other sites
+    f = base.func("DocutilsRenderer.render_heading") if "DocutilsRenderer.render_heading" in base.functions else None
+    cu = find_node(base.func("DocutilsRenderer.generate_heading_target"), lambda n: isinstance(n, ast.Call) and dotted(n.func) == "clean_astext") if "DocutilsRenderer.generate_heading_target" in base.functions else None
+    if cu is not None and cu.args:
+        out.append(Mutant("c14-title-text-by-plain-astext", "C14.R8", base.rel, splice(base.src, cu, f"{unparse(cu.args[0])}.astext()"), expect="text of"))
+    else:
+        hits = [(fi2, n) for fi2 in base.functions.values() for n in (fi2.local_nodes() if not fi2.is_lambda else []) if isinstance(n, ast.Call) and dotted(n.func) == "clean_astext" and n.args]
+        if hits:
+            fi2, n = hits[0]
+            out.append(Mutant("c14-title-text-by-plain-astext", "C14.R8", base.rel, splice(base.src, n, f"{unparse(n.args[0])}.astext()"), expect="text of"))
+        else:
+            out.append(("c14-title-text-by-plain-astext", "no clean_astext call in base.py"))
     # 7. suppress list read elsewhere
     f = base.func("DocutilsRenderer.render_hr")
     out.append(Mutant("c14-suppress-list-read-in-renderer", "C14.R4", base.rel, splice(base.src, f.node.body[0], "if 'myst.hr' in self.md_config.suppress_warnings:\n            return\n        " + ast.get_source_segment(base.src, f.node.body[0])), expect="render_hr"))
